@@ -238,6 +238,9 @@ class C10:
         kind = rng.choice(['holo', 'field', 'scat_matrix'])
         cen = center()
         n = draw_index(rng, 0.3)
+        if rng.random() < 0.2:
+            # high-contrast, non-absorbing (titania, silicon in the infrared)
+            n = rng.choice([2.4, 2.7, 3.2, 3.45])
         a = rfloat(rng, 0.01, 1.5, 4)        # size parameter 0.1 .. 19
         tm = {'kind': 'Tmatrix'}
         A = B = None
